@@ -833,6 +833,39 @@ def gen_c20(r, knobs=None):
     return b.scenario()
 
 
+def gen_c20crash(r, knobs=None):
+    """the first real migration dies at some file-system operation (torn last write); it is run again (it may refuse the
+    half-copied target, or complete the job - never report success over a partial copy), and once more."""
+    kn = {'kinds': PERSISTED_KINDS + ['mem'], 'n_roots': (1, 2), 'n_pipes': (1, 3), 'p_override': 0.0, 'p_twin': 0.25}
+    kn.update(knobs or {})
+    world = gen.gen_world(r, kn)
+    b = B(world, r)
+    root = r.randrange(len(world['roots']))
+    rd = {'form': 'yaml' if world.get('no_json') else r.choice(['json', 'yaml']), 'file_tag': 't0', 'perm': r.choice([0, 3])}
+    b.proc(hs=r.choice([0, 1]))
+    c0 = b.build(root, rd, pmode=False, store='src')
+    names = b.names(c0)
+    for n in r.sample(names, r.randint(max(1, len(names) // 2), len(names))):
+        b.req(c0, n)
+    b.op(op='ls', store='src')
+    b.proc(hs=r.choice([0, 1, 2]))
+    cr = _pick_crash(r, 6 + 3 * len(names))
+    cr.pop('wlimit', None)
+    b.op(op='migrate', root=root, render=rd, store='src', target='tgt', dry=False, verbose=False, prechain=False, crash=cr)
+    for _ in range(2):
+        b.proc(hs=r.choice([0, 1, 2]))
+        b.op(op='migrate', root=root, render=rd, store='src', target='tgt', dry=False, verbose=r.random() < 0.3, prechain=False)
+        b.op(op='ls', store='src', expect='unchanged', what='source')
+    b.proc(hs=r.choice([0, 1, 2]))
+    c1 = b.build(root, rd, pmode=True, store='tgt')
+    b.op(op='insp', cid=c1, kind='has_data')
+    order = list(b.names(c1))
+    r.shuffle(order)
+    for n in order:
+        b.req(c1, n)
+    return b.scenario()
+
+
 def gen_c02zone(r, knobs=None):
     """known-finding zones of C02. F4: parameter objects that store a python set (AutoParameterObject repr follows set iteration
     order). F14: Path-typed parameter whose declared default is a Path object and is persisted (no dont_persist_default_value):
